@@ -29,6 +29,7 @@ CONSTANTS
     KexType,        \* "dh" (fixed group DH, ECDH, hybrids) | "gex" | "rsa"
     MaxEdits,       \* edits the adversary may make in one handshake
     VaryCats,       \* categories whose preference lists range over AllLists
+    VaryMode,       \* "product": all of them at once; "oneof": one at a time
     EditListMode,   \* "all" | "single" | "few": values the adversary may
                     \* write into a name-list
     TrustAllSet,    \* {FALSE}: client trusts only "hk"; TRUE: known_hosts=None
@@ -60,6 +61,13 @@ EditLists == CASE EditListMode = "all" -> AllLists
 ListsFor(cat) == IF cat \in VaryCats THEN AllLists ELSE {Fixed}
 CfgSet == [kex : ListsFor("kex"), hostkey : ListsFor("hostkey"),
            enc : ListsFor("enc"), mac : ListsFor("mac"), cmp : ListsFor("cmp")]
+OnlyFor(cat, c) == IF c = cat THEN AllLists ELSE {Fixed}
+CfgSetOne(cat) == [kex : OnlyFor(cat, "kex"), hostkey : OnlyFor(cat, "hostkey"),
+                   enc : OnlyFor(cat, "enc"), mac : OnlyFor(cat, "mac"),
+                   cmp : OnlyFor(cat, "cmp")]
+CfgPairs == IF VaryMode = "oneof" /\ VaryCats # {}
+            THEN UNION {[Side -> CfgSetOne(cat)] : cat \in VaryCats}
+            ELSE [Side -> CfgSet]
 
 Flights == CASE KexType = "dh"  -> <<"VC", "VS", "IC", "IS", "INIT", "REPLY",
                                      "NKS", "NKC">>
@@ -129,7 +137,7 @@ Blank(x) == [st |-> "run", vown |-> IF x = "c" THEN "vc" ELSE "vs", vpeer |-> "n
              k |-> NoK, h |-> NoH, sig |-> NoSig]
 
 Init ==
-    /\ cfg \in [Side -> CfgSet]
+    /\ cfg \in CfgPairs
     /\ trustAll \in TrustAllSet
     /\ side = [x \in Side |-> Blank(x)]
     /\ pc = 1
